@@ -1179,6 +1179,10 @@ impl SpanPrinter {
         unit: FractionalUnit,
         wtr: &mut DesignatorWriter<'p, 'w, W>,
     ) -> Result<(), Error> {
+        // The sign is written by `DesignatorWriter`, so only deal with
+        // magnitudes here. (The fractional printer requires a non-negative
+        // fraction.)
+        let span = &span.abs();
         // OK because the biggest FractionalUnit is Hour, and there is always
         // a Unit bigger than hour.
         let split_at = Unit::from(unit).next().unwrap();
